@@ -211,6 +211,15 @@ func (a Attr) UnmarshalToType(data []byte) (any, error) {
 		return GetZeroValue(a.Type, a.Nullable), nil
 	}
 
+	if string(data) == "null" && (a.Type == AttrTypeString || a.Type == AttrTypeTime) {
+		// encoding/json ignores null and would leave the zero value.
+		return nil, NewErrInvalidFieldValueInBody(
+			a.Name,
+			string(data),
+			GetAttrTypeString(a.Type, a.Nullable),
+		)
+	}
+
 	var (
 		v   any
 		err error
